@@ -354,7 +354,7 @@ pub fn run(ctx: &Ctx, profile: Profile) -> i32 {
     let probe_keys: Vec<&'static str> = match profile {
         Profile::C01 => vec!["probe_gf2_only_attempt_eligible", "probe_block_decoded_from_repair_only", "probe_decoded_at_exactly_k", "probe_completed_by_solving", "probe_rank_deficient_at_ge_k", "probe_esi_above_2_23", "probe_rollback_across_completion"],
         Profile::C08 => vec!["probe_gf2_only_attempt_eligible", "probe_dup_source_at_k_minus_1", "probe_dup_as_kth_packet", "probe_batch_crosses_k", "probe_rollback_across_completion", "probe_clone_followed", "set_determinism_checks", "redeliver_after_done"],
-        Profile::C18 => vec!["probe_esi_seen_through_two_routes", "probe_window_ends_at_last_esi", "probe_bulk_window", "windows", "bursts", "window_overlap", "replica_mix"],
+        Profile::C18 => vec!["probe_esi_seen_through_two_routes", "probe_window_ends_at_last_esi", "probe_bulk_window", "probe_empty_window", "windows", "bursts", "window_overlap", "replica_mix"],
         Profile::C07 => vec![],
     };
     let mut probes = Counters::default();
@@ -385,7 +385,7 @@ pub fn run(ctx: &Ctx, profile: Profile) -> i32 {
             level: "exploration",
             evaluations: acc.runs,
             distinct_nontrivial: acc.states.len() as u64,
-            rule: rule.into(),
+            rule: format!("{rule} (the set of state hashes is capped at {} entries; a reported value equal to the cap is a lower bound)", crate::util::HASHSET_CAP),
             samples: acc.samples.clone(),
             extra: json!({
                 "events_executed": acc.events,
